@@ -289,7 +289,8 @@ def rule_prune(ctx):
     # _check_placeholders comparison + model
     h = ctx.func(FILESET, "FileSet._check_placeholders")
     hs, he = h.params[2], h.params[3]
-    tries = [t_ for t_ in walk_no_nested(h.node) if isinstance(t_, ast.Try)]
+    # (a try around the parsing of the directory's date - a directory naming a date that does not exist is skipped - is not the comparison)
+    tries = [t_ for t_ in walk_no_nested(h.node) if isinstance(t_, ast.Try) and any(isinstance(n_, ast.Compare) for s_ in t_.body for n_ in ast.walk(s_))]
     if len(tries) != 1 or len(tries[0].handlers) != 1:
         raise AnalysisError("_check_placeholders: the comparison inside try/except was not found")
     from ..normalize import _returns_to_ifexp
@@ -379,6 +380,20 @@ def rule_exclude(ctx):
         ok = "not self.is_excluded(file_info)" in guards and any(x.startswith("IntervalTree.interval_overlaps(file_info.times") for x in guards) \
             and any(x.startswith("regex.match") for x in guards) and norm(ys[0].value) == "file_info"
     ctx.ob("FileSet._get_matching_files.yield", ok, "yield guarded by %s" % fact, "regex match, interval overlap and `not self.is_excluded(file_info)`", node=ys[0] if ys else g.node, func=g)
+    # the single-file branch of find() yields its one file under the same exclusion test
+    fnd = ctx.func(FILESET, "FileSet.find")
+    sf = [st for st in fnd.body if isinstance(st, ast.If) and str(norm(st.test)) == "self.single_file"]
+    if len(sf) != 1:
+        raise AnalysisError("find: the single-file branch was not found")
+    ys1 = [n for n in walk_no_nested(sf[0]) if isinstance(n, ast.Yield) and any(n is x for b_ in sf[0].body for x in ast.walk(b_))]
+    if len(ys1) != 1:
+        raise AnalysisError("find: expected one yield in the single-file branch")
+    from ..flow import facts_at
+    g1 = [("" if tr else "not ") + str(norm(e_)) for e_, tr in facts_at(enclosing_stmt(ys1[0]))]
+    v1 = str(norm(ys1[0].value))
+    ok1 = ("not self.is_excluded(%s)" % v1) in g1 and any(x.startswith("IntervalTree.interval_overlaps(%s.times" % v1) for x in g1)
+    ctx.ob("FileSet.find.single_file.yield", ok1, "yield guarded by %s" % g1, "interval overlap and `not self.is_excluded(file_info)`: an excluded single file is omitted like any other",
+           node=ys1[0], func=fnd, witness=None if ok1 else {"FileSet": "one file, time_coverage given, exclude=[(2018-01-02, 2018-01-03)]", "'2018-01-05' in fs": True})
     e = ctx.func(FILESET, "FileSet.is_excluded")
     body = [norm(s) for s in e.body]
     p = e.params[1]
@@ -755,8 +770,20 @@ def emptiness_test_kind_(t):
 def rule_len(ctx):
     ctx.rule("C01.len", "T1", "len(fileset) counts find() with default arguments; iteration iterates it; the defaults of find cover the whole axis")
     f = ctx.func(FILESET, "FileSet.__len__")
-    ok = len(f.body) == 1 and norm(f.body[0]).replace(" ", "") in ("returnsum((1for_inself.find()))", "returnlen(list(self.find()))")
-    ctx.ob("FileSet.__len__", ok, "%s" % norm(f.body[0]), "number of elements of self.find()", node=f.node, func=f)
+    fc = [c for c in calls_in(f.node, "find") if norm(c.func) == "self.find"]
+    if len(f.body) != 1 or not isinstance(f.body[0], ast.Return) or len(fc) != 1:
+        raise AnalysisError("__len__: not a single return counting one self.find(...) call")
+    kw = {k.arg: str(norm(k.value)) for k in fc[0].keywords}
+    import copy as _copy
+    bare = _copy.deepcopy(f.body[0])
+    for c_ in ast.walk(bare):
+        if isinstance(c_, ast.Call) and norm(c_.func) == "self.find":
+            c_.keywords = []
+    counted = norm(bare).replace(" ", "") in ("returnsum((1for_inself.find()))", "returnlen(list(self.find()))")
+    # the whole axis, every file, one by one - and an empty set is counted as 0, not reported as NoFilesError
+    ok = counted and not fc[0].args and set(kw) <= {"no_files_error", "sort"} and kw.get("no_files_error") == "False"
+    ctx.ob("FileSet.__len__", ok, "%s" % norm(f.body[0]), "number of elements of self.find(no_files_error=False): 0 for a fileset without (permitted) files - find() with its default raises NoFilesError there",
+           node=f.node, func=f, witness=None if ok else {"len(FileSet(<empty directory>/{year}{month}{day}.nc))": "NoFilesError", "expected": 0})
     g = ctx.func(FILESET, "FileSet.__iter__")
     ctx.ob("FileSet.__iter__", len(g.body) == 1 and norm(g.body[0]) == "return iter(self.find())", "%s" % norm(g.body[0]), "iter(self.find())", node=g.node, func=g)
     h = ctx.func(FILESET, "FileSet.find")
